@@ -6,6 +6,7 @@ from enum import Enum
 from typing import Optional, Union
 
 from sim.pool.base import StableHashMeta
+from xsdata.models.datatype import XmlDate, XmlDateTime, XmlTime
 
 __NAMESPACE__ = "urn:e"
 
@@ -279,3 +280,27 @@ class Owner(metaclass=StableHashMeta):
 
     pet: Optional[Union[HouseCat, HouseDog]] = field(default=None, metadata={"type": "Element"})
     others: list[Pet] = field(default_factory=list, metadata={"type": "Element", "name": "other"})
+
+
+class Release(Enum):
+    FIRST = XmlDateTime(2020, 1, 1, 0, 0, 0)
+    SECOND = XmlDateTime(2021, 6, 30, 23, 59, 59, 0, 120)
+
+
+class Day(Enum):
+    D1 = XmlDate(2020, 2, 29)
+    D2 = XmlDate(1999, 12, 31)
+
+
+@dataclass
+class Stamped(metaclass=StableHashMeta):
+    """Date-valued enumerations and fixed values: every parsed value is compared with a constant."""
+
+    class Meta:
+        name = "stamped"
+        namespace = "urn:e"
+
+    release: Optional[Release] = field(default=None, metadata={"type": "Element"})
+    days: list[Day] = field(default_factory=list, metadata={"type": "Attribute", "tokens": True})
+    at: XmlDateTime = field(init=False, default=XmlDateTime(2020, 1, 1, 0, 0, 0), metadata={"type": "Attribute"})
+    opens: XmlTime = field(init=False, default=XmlTime(9, 0, 0), metadata={"type": "Element"})
